@@ -41,6 +41,9 @@ func sortTokens(s Sort, out map[string]bool) {
 	}
 }
 
+// alphaDedup: drop hypotheses that differ from an earlier one only in the names of bound variables
+var alphaDedup = false
+
 const vcSizeCap = 4 << 20
 
 // lemmaHyp marks hypotheses that are `use`d lemmas (quantified facts about specification functions).  Such a lemma is
@@ -277,10 +280,14 @@ func (e *Engine) renderVC(o *Obligation) (string, error) {
 	for _, h := range o.Hyps {
 		h = stripNegVariants(h, true)
 		hs := h.String()
-		if seenHyp[hs] {
+		hk := hs
+		if alphaDedup && (strings.Contains(hs, "(forall ") || strings.Contains(hs, "(exists ")) {
+			hk = alphaKey(h)
+		}
+		if seenHyp[hk] {
 			continue
 		}
-		seenHyp[hs] = true
+		seenHyp[hk] = true
 		sb.WriteString("(assert ")
 		sb.WriteString(hs)
 		sb.WriteString(")\n")
